@@ -170,7 +170,7 @@ pub fn install(dir: &std::path::Path, hang_secs: u64) {
     unsafe {
         for sig in [libc::SIGSEGV, libc::SIGABRT, libc::SIGBUS, libc::SIGILL] {
             let mut sa: libc::sigaction = std::mem::zeroed();
-            sa.sa_sigaction = on_signal as usize;
+            sa.sa_sigaction = on_signal as *const () as usize;
             sa.sa_flags = libc::SA_ONSTACK | libc::SA_NODEFER;
             libc::sigemptyset(&mut sa.sa_mask);
             libc::sigaction(sig, &sa, std::ptr::null_mut());
